@@ -139,6 +139,53 @@ def bounded(sess: Session):
                               {'graph': g}, True, finding='K4', functions=('wn.taxonomy.taxonomy_depth',))
 
 
+def placeholder_walks(sess: Session):
+    """Hypernym walks that START at a synset inferred through an expand lexicon (a placeholder handed out by
+    hypernyms()): on a real database (lexicon u expanded by the taxonomy lexicon t of bounded/determinism.py)
+    hypernym_paths(p) against a brute-force enumeration of the maximal simple chains over p.hypernyms()."""
+    import os
+    import shutil
+    import tempfile
+    import wn
+    from bounded import determinism as D
+    work = tempfile.mkdtemp(prefix='wnph13')
+    old = wn.config.data_directory
+    wrong, cases = [], 0
+    try:
+        D.build(work)
+        wn.config.data_directory = os.path.join(work, 'data')
+        w = wn.Wordnet('u:1', expand='t:1')
+        key = lambda x: (x.id, x._ili)      # noqa: E731
+
+        def chains(x, seen):
+            nxt = [h for h in x.get_related('hypernym', 'instance_hypernym') if key(h) not in seen]
+            if not nxt:
+                return [[]]
+            return [[h] + c for h in nxt for c in chains(h, seen | {key(h)})]
+        placeholders = {}
+        for s in w.synsets():
+            for h in s.closure('hypernym', 'instance_hypernym'):
+                if h.id == '*INFERRED*':
+                    placeholders[key(h)] = h
+        for k, p in sorted(placeholders.items()):
+            cases += 1
+            want = sorted([key(x) for x in c] for c in chains(p, {key(p)}) if c)
+            got = sorted([key(x) for x in c] for c in T.hypernym_paths(p))
+            if got != want:
+                wrong.append({'start': k, 'hypernym_paths': got, 'maximal simple chains': want})
+    finally:
+        wn.config.data_directory = old
+        shutil.rmtree(work, ignore_errors=True)
+    sess.add_bounded('wn.taxonomy.hypernym_paths started at an inferred synset', f'{cases} placeholders of lexicon u '
+                     'expanded by the 11-synset taxonomy lexicon', cases, 'native execution against brute force',
+                     ok=True, note='deviations are known finding K22')
+    if wrong:
+        sess.violation_direct('wn.taxonomy.hypernym_paths:from-inferred-synset', 'hypernym_paths of an inferred synset '
+                              'differs from the maximal simple hypernym chains', {'witness': wrong[0], 'cases': len(wrong)},
+                              True, finding='K22', functions=('wn._core._Relatable.relation_paths',
+                                                              'wn._core._DatabaseEntity.__eq__'))
+
+
 def run(sess: Session):
     # hypernym walks are built on Synset._iter_*relations and get_synset_relations: the synsets they hand out must
     # carry their own lexicon / ILI / Wordnet (sets of synsets and their hashes depend on it)
@@ -162,3 +209,4 @@ def run(sess: Session):
         except Unsupported as exc:
             sess.unsupported(f'C13:{part}', str(exc))
     bounded(sess)
+    placeholder_walks(sess)
